@@ -52,6 +52,7 @@ PROPS = {
     },
     "C08": {
         "extra_props": ["ReachAll", "FullCor", "FullCorExample"],
+        "model_spec_ops": ["c ingest"],
         "spec_ops": ["c pausedsame"],
         "streams": [{"name": "ledger", "quick": 160, "thorough": 1600}, {"name": "sync", "quick": 64, "thorough": 800}],
         "rule": LEDGER_RULE + " Ingestion rounds with budgets 0-12 pause the anchor's ingestion at every position (inputs / outputs of every transaction); at each pause `pausedsame` compares the labelled answers of every query endpoint for every pool address with the ones taken before the ingestion began (specification column same=1, len=1), and the run continues with further slices; the final state is compared with the model, which is proved schedule-independent.",
@@ -63,6 +64,7 @@ PROPS = {
     },
     "C09": {
         "extra_props": ["FullCor", "FullCorExample", "FullSys", "C13Full"],
+        "model_spec_ops": ["c ingest"],
         "spec_ops": ["c upgrade", "c hb"],
         "streams": [{"name": "sync", "quick": 160, "thorough": 3200}, {"name": "ledger", "quick": 96, "thorough": 800}],
         "rule": SYNC_RULE + " Every upgrade line carries the labelled answers of all query endpoints (info, per pool address get_utxos and get_balance, headers, synced) before and after; the specification column says they are identical.",
@@ -237,7 +239,7 @@ PROPS = {
     },
     "C14": {
         "extra_props": ["NetSpelling", "FullCor", "FullCorExample", "HeaderSlots"],
-        "model_spec_ops": ["c call"],
+        "model_spec_ops": ["c call", "c q synced"],
         "spec_ops": [],
         "streams": [{"name": "sync", "quick": 160, "thorough": 3200}],
         "rule": SYNC_RULE,
